@@ -41,9 +41,13 @@ type c05Fault struct {
 	LocalFailAt int   // k-th Append call on the publisher's node fails (0 = never)
 	Unreachable []int // remote node indexes (1-based ids) unreachable
 	RemoteFail  []int // remote node ids whose log rejects every append
+	ReplyLost   []int // remote node ids whose first reply is lost after the node appended
 }
 
 func (f c05Fault) String() string {
+	if len(f.ReplyLost) > 0 {
+		return fmt.Sprintf("local-append-fails@%d unreachable=%v remote-log-fails=%v first-reply-lost=%v", f.LocalFailAt, f.Unreachable, f.RemoteFail, f.ReplyLost)
+	}
 	return fmt.Sprintf("local-append-fails@%d unreachable=%v remote-log-fails=%v", f.LocalFailAt, f.Unreachable, f.RemoteFail)
 }
 
@@ -184,6 +188,9 @@ func c05Run(c *fw.Ctx, s int, nNodes int, seq []c05Pkt, fault c05Fault) c05Resul
 		nodes[id-1].Log.SetFail(func(p *packet.Publish, nth int) error { return errInjected })
 		badRemote[id] = true
 	}
+	for _, id := range fault.ReplyLost {
+		cl.LoseReplies(uint64(id), 1)
+	}
 	remotes := nNodes - 1
 	desc := fmt.Sprintf("%d node(s), packets %v, faults {%s}", nNodes, seq, fault)
 	wit := func(extra map[string]interface{}) map[string]interface{} {
@@ -201,6 +208,7 @@ func c05Run(c *fw.Ctx, s int, nNodes int, seq []c05Pkt, fault c05Fault) c05Resul
 		ackType    int
 		ackID      int
 		handshake2 bool
+		unjudged   bool
 	}
 	forwards := []fwd{}
 	pending := map[int]string{}
@@ -212,6 +220,7 @@ func c05Run(c *fw.Ctx, s int, nNodes int, seq []c05Pkt, fault c05Fault) c05Resul
 		rpcCalls += remotes
 		f := fwd{tag: tag, localNth: localCalls, ackType: ackType, ackID: ackID}
 		f.allOK = !(fault.LocalFailAt == localCalls) && len(badRemote) == 0
+		f.unjudged = len(fault.ReplyLost) > 0 && localCalls == 1 // the forwarding whose reply is lost: the acknowledgement is not judged
 		if !waitCount(func() int { return nodes[0].Log.Calls() }, localCalls, 30*time.Second) {
 			c.Violation("not-forwarded", fmt.Sprintf("%s: %s was never offered to the publisher node's log", desc, tag), wit(nil))
 			return false
@@ -220,7 +229,7 @@ func c05Run(c *fw.Ctx, s int, nNodes int, seq []c05Pkt, fault c05Fault) c05Resul
 			c.Violation("not-forwarded-remote", fmt.Sprintf("%s: %s reached only %d of %d remote calls", desc, tag, len(cl.RPCLog()), rpcCalls), wit(nil))
 			return false
 		}
-		if f.allOK && ackType != 0 {
+		if f.allOK && ackType != 0 && !f.unjudged {
 			if _, _, err := pub.WaitFor(from, kit.DefaultWait, func(e kit.Event) bool { return e.Pkt.Type == ackType && e.Pkt.ID == ackID }); err != nil {
 				c.Violation("ack-missing", fmt.Sprintf("%s: every write of %s succeeded but no %s(%d) arrived: %v", desc, tag, kit.TypeName(ackType), ackID, err), wit(nil))
 				return false
@@ -316,6 +325,10 @@ func c05Run(c *fw.Ctx, s int, nNodes int, seq []c05Pkt, fault c05Fault) c05Resul
 			}
 		}
 		c.Observe("forwardings_checked", 1)
+		if f.unjudged {
+			c.Observe("forwardings_with_lost_reply", 1)
+			continue
+		}
 		if !f.allOK {
 			c.Observe("forwardings_with_failed_write", 1)
 			if ackSeq >= 0 {
@@ -360,6 +373,20 @@ func c05Run(c *fw.Ctx, s int, nNodes int, seq []c05Pkt, fault c05Fault) c05Resul
 				kind = "forwarded-more-than-once"
 			}
 			c.Violation(kind, fmt.Sprintf("%s: %s was offered to the log %d time(s), want %d", desc, tag, got[tag], expectedTagAttempts[tag]), wit(map[string]interface{}{"tag": tag, "appends": got[tag], "expected": expectedTagAttempts[tag]}))
+		}
+	}
+	// (b') no node's log accepted a message more often than it was forwarded
+	for ni := 1; ni < len(nodes); ni++ {
+		acc := map[string]int{}
+		for _, r := range nodes[ni].Log.Records() {
+			if r.Err == nil {
+				acc[c05RecTag(r)]++
+			}
+		}
+		for tag := range allTags {
+			if acc[tag] > expectedTagAttempts[tag] {
+				c.Violation("forwarded-more-than-once:remote", fmt.Sprintf("%s: %s was appended %d time(s) to node %d's log, forwarded %d time(s)", desc, tag, acc[tag], ni+1, expectedTagAttempts[tag]), wit(map[string]interface{}{"tag": tag, "node": ni + 1, "appends": acc[tag], "expected": expectedTagAttempts[tag]}))
+			}
 		}
 	}
 	for tag := range otherTags {
@@ -597,6 +624,7 @@ func runC05(c *fw.Ctx) {
 		for r := 2; r <= b.nNodes; r++ {
 			faulty = append(faulty, job{b.s, b.nNodes, b.seq, c05Fault{Unreachable: []int{r}}})
 			faulty = append(faulty, job{b.s, b.nNodes, b.seq, c05Fault{RemoteFail: []int{r}}})
+			faulty = append(faulty, job{b.s, b.nNodes, b.seq, c05Fault{ReplyLost: []int{r}}})
 			if !c.Quick() || i%4 == 0 {
 				for k := 1; k <= attempts[i]; k++ {
 					faulty = append(faulty, job{b.s, b.nNodes, b.seq, c05Fault{LocalFailAt: k, Unreachable: []int{r}}})
